@@ -243,7 +243,7 @@ PROPS["C06"] = {
     "level": "translation_validation",
     "prepare": g_prepare,
     "jobs": [],
-    "designs": ["s1", "s2"],
+    "designs": ["s1", "s2", "s3"],
     "harness_tag": "c06",
     "quick": r"^VerifC06_", "thorough": r"^VerifC06T?_",
     "bounds": {'designs': {'s1': 'Basic, JWT (2 scopes), API key; service-level Basic; method with two alternative requirements basic | (jwt & api_key with required scope); method inheriting the service requirement; NoSecurity method; credentials in Authorization (Basic), custom header (token), query (key)'}, 'values': 'all 8 callback outcome vectors, credentials of 0-2 (token up to 5) symbolic bytes, presence of every credential'},
@@ -307,7 +307,7 @@ PROPS["C20"] = {
     },
 }
 
-ALL_DESIGNS = ["v1", "v2", "v3", "v4", "v5", "v6", "v7", "d1", "a1", "a2", "a3", "a4", "a5", "e1", "e2", "e3", "s1", "s2", "w1", "w2", "w3", "p1", "c1", "c2", "c3", "c4", "c5", "c6", "c7", "c8", "a6"]
+ALL_DESIGNS = ["v1", "v2", "v3", "v4", "v5", "v6", "v7", "d1", "a1", "a2", "a3", "a4", "a5", "e1", "e2", "e3", "s1", "s2", "s3", "w1", "w2", "w3", "p1", "c1", "c2", "c3", "c4", "c5", "c6", "c7", "c8", "a6"]
 
 PROPS["C01"] = {
     "level": "other",
